@@ -536,6 +536,8 @@ def gen_compressed(rng):
                     c["list"] = sorted(rng.sample(range(tot), nl))
                 else:
                     c["list"] = sorted(rng.sample(range(tot), rng.randint(1, tot)))
+                if c["list"] == list(lst):
+                    continue        # an equal list variable is written once: one variable, one name
                 if origin == "file" or rng.random() < 0.5:
                     free = [x for x in ("lp1", "lp2", "lp3", "pts") if x not in used_names]
                     c["list_name"] = rng.choice(free)
@@ -989,7 +991,7 @@ SIG_SYMPTOMS = {
     "construct-without-axes-equals-raises": {"equals", "equals_err"},
     "grid-mapping-coordinates-not-implied-by-name": {"equals", "fp:refs"},
     "bounds-dimension-name-shared-by-size": {"names:bdim"},
-    "equal-constructs-share-a-variable": {"names:var", "names:bvar"},
+    "equal-constructs-share-a-variable": {"names:var", "names:bvar", "names:listvar"},
     "netcdf4-classic-fill-value-after-data": {"write_err"},
     "unspanned-size1-axis:no-coordinate": {"equals", "fp:axes", "fp:cell_methods"},   # a cell method may name the axis
     "twin-axes:equals-cannot-pair-indistinguishable-axes": {"equals"},
@@ -1216,6 +1218,13 @@ def oracle(chk, cases, rows, stats):
                 lists.add(tuple(c["cs"]["list"]))
             if len(lists) > 1:
                 exp.append("gathered-items-with-different-list-variables")        # repaired by C01-fix4-1
+            named = {}
+            for x in c["cs"]["cons"]:
+                if x.get("comp") and x.get("list") is not None:
+                    named.setdefault(tuple(x["list"]), set()).add(x.get("list_name"))
+            named.setdefault(tuple(c["cs"]["list"]), set()).add((c["cs"].get("names") or {}).get("list"))
+            if any(len(v) > 1 for v in named.values()):
+                exp.append("equal-constructs-share-a-variable")     # equal list variables are one netCDF variable
         if "cs" in c and c["cs"]["ckind"] == "indexed" and c["cs"]["origin"] == "api" and (c["cs"].get("names") or {}).get("sample"):
             exp.append("index-variable-sample-dimension-name")                 # repaired by C01-fix3-1
         if "example" in c and c["example"] in (3, 4, 7) and c["options"].get("fmt") == "NETCDF4_CLASSIC":
